@@ -2,9 +2,15 @@ use std::{
     alloc::Layout,
     mem::{self, ManuallyDrop},
     ops::{Deref, DerefMut},
-    sync::{Mutex, MutexGuard, PoisonError},
+    sync::PoisonError,
     vec::Vec,
 };
+
+// Verification hook: with `--cfg bump_scope_verif` the pool's lock is loom's model-checked mutex.
+#[cfg(bump_scope_verif)]
+use loom::sync::{Mutex, MutexGuard};
+#[cfg(not(bump_scope_verif))]
+use std::sync::{Mutex, MutexGuard};
 
 use crate::{
     Bump, BumpScope, ErrorBehavior,
@@ -119,7 +125,19 @@ where
     /// Constructs a new `BumpPool` with the provided allocator.
     #[inline]
     #[must_use]
+    #[cfg(not(bump_scope_verif))]
     pub const fn new_in(allocator: A) -> Self {
+        Self {
+            bumps: Mutex::new(Vec::new()),
+            allocator,
+        }
+    }
+
+    /// Verification hook twin of `new_in`: loom's `Mutex::new` is not `const`.
+    #[inline]
+    #[must_use]
+    #[cfg(bump_scope_verif)]
+    pub fn new_in(allocator: A) -> Self {
         Self {
             bumps: Mutex::new(Vec::new()),
             allocator,
